@@ -673,7 +673,13 @@ def doc_to_coq(c, r):
     j1 = cout_str(r["d1"])
     j2 = cout_str(r["d2"]) if "d2" in r else "(Crash 0)"
     jy = cout_str(r["dy"]) if "dy" in r else "(Crash 0)"
-    return f"({kind}, {shapes}, {custom}, {keys}, {j1}, {j2}, {jy}, {cstr(r['q1'])}, {cstr(r.get('q2', ''))}, {cstr(r.get('qy', ''))})"
+    SUBK = {"category": 0, "product": 1, "service": 2, "definition": 3,
+            "type": 10, "rules": 11, "timespan": 12, "group-by": 13, "aliases": 14, "generate": 15, "condition": 16}
+    sub = r.get("sub", {"shapes": [], "custom": [], "flag": False, "keys": []})
+    sc = {k: 100 + i for i, k in enumerate(sub["custom"])}
+    subt = (f"({clist(str(x) for x in sub['shapes'])}, {clist(str(sc[k]) for k in sub['custom'])}, {cbool(sub['flag'])}, "
+            f"{clist(str(sc.get(k, SUBK.get(k, 999))) for k in sub['keys'])})")
+    return f"({kind}, {shapes}, {custom}, {keys}, {subt}, {j1}, {j2}, {jy}, {cstr(r['q1'])}, {cstr(r.get('q2', ''))}, {cstr(r.get('qy', ''))})"
 
 
 def doc_strings(x):
